@@ -1849,6 +1849,11 @@ class UserSpaceImpl(*_user_space_impl_base):
             bs = [bm[name] for bm in basedict.maps
                   if name in bm and bm[name].is_defined()]
 
+            if not bs:
+                # No base defines the name anymore. A base that is yet to
+                # be updated still holds its derived member.
+                continue
+
             if name not in selfdict:
 
                 if attr == "cells":
